@@ -1,13 +1,18 @@
-(* C04 — Known keys and aliases are recognised whatever the case and spacing (partial).
+(* C04 — Known keys and aliases are recognised whatever the case and spacing (operand contexts: partial).
    Proved: a text whose lower-cased words (split on white space and parentheses: any letter case,
    any amount and kind of white space, also around parentheses) are the words of a stored name is
    matched by the scan from its first to its last word with the value stored for that name; the
    names of a table are stored under the lower-cased words of the key and of every alias; among
    overlapping matches the overlap filter keeps tokens of its input only, in text order and
-   disjoint. That the whole-span match is the one the filter keeps (longest wins, leftmost on a
-   tie), and the operator contexts, are decided by the oracle and the correspondence. *)
+   disjoint. C04_recognise_alone: a text that spells a known name - whatever the letter case, the
+   amount and kind of white space between its words and around parentheses - is tokenized to the one
+   whole-span match (every other match is contained in it and removed by the overlap filter; the
+   gap-filling walk adds nothing) and parsed to the symbol of the entry that owns these words, which
+   renders as the canonical key; strictly too when that license is not an exception. The operator
+   contexts (the name as an operand next to other tokens, longest / leftmost among partially
+   overlapping matches) are decided by the oracle and the correspondence. *)
 Require Import Model.Base Model.Expr Model.Split Model.Trie Model.Overlap Model.LicTok.
-Require Import Proofs.Trie Proofs.Overlap.
+Require Import Model.Licensing Proofs.Trie Proofs.Overlap Proofs.Recognise.
 
 Theorem C04_name_is_matched_partial : forall V O (tr : trie V), wf_trie tr -> forall text sp v,
   get_out (lwords O text) (outs tr) = Some (sp, v) ->
@@ -26,3 +31,22 @@ Theorem C04_filter_keeps_disjoint_input_tokens : forall V (l : list (Trie.tok V)
   (forall x, In x (filter_overlapping l) -> In x l).
 Proof. intros V l. split; [apply fo_disjoint | split; [apply fo_in_order | apply fo_sub]]. Qed.
 Print Assumptions C04_filter_keeps_disjoint_input_tokens.
+
+Theorem C04_recognise_alone : forall O T text sp s,
+  stored O (keyword_adds ++ flat_map (entry_adds O) T) (lwords O text) = Some (sp, VSym s) ->
+  parse O T false false false text = Ok (Some (Lit (Plain s))) /\ render (Lit (Plain s)) = key s.
+Proof. exact recognise_name. Qed.
+Print Assumptions C04_recognise_alone.
+
+Theorem C04_recognise_alone_strict : forall O T text sp s,
+  get_out (lwords O text) (outs (build_trie O T)) = Some (sp, VSym s) -> exc s = false ->
+  parse O T false true false text = Ok (Some (Lit (Plain s))).
+Proof. exact recognise_alone_strict. Qed.
+Print Assumptions C04_recognise_alone_strict.
+
+Theorem C04_tokenized_to_one_token : forall O T text sp v,
+  get_out (lwords O text) (outs (build_trie O T)) = Some (sp, v) ->
+  let wps := filter (is_word_piece O) (pieces O text) in
+  t_tokenize O (build_trie O T) text = [occurrence_tok text wps (last wps dpiece) v].
+Proof. exact tokenize_alone. Qed.
+Print Assumptions C04_tokenized_to_one_token.
